@@ -22,8 +22,8 @@ from txdbus import authentication, client as t_client
 
 PROPERTY = 'C20'
 LEVEL = 'exploration'
-QUICK_RUNS = 20000
-QUICK_BUDGET_S = 90
+QUICK_RUNS = 80000
+QUICK_BUDGET_S = 60
 THOROUGH_BUDGET_S = 600
 RULE = ('receive: 1-12 messages with 0-3 descriptors each (h arguments at top level, in '
         'arrays and structs, indices in and out of order) x seeded attach positions within the '
